@@ -182,8 +182,11 @@ def _conc(eng, m, v):
 def make_raw(eng, n, alphabet, first, req=0, opt=0, faw=False, spec="std"):
     d = M["myst_parser.parsers.directives"]
     content = lift(new_str(eng, "c", n, alphabet=alphabet)) if n else ""
+    if isinstance(first, tuple):
+        # symbolic first line: (length, alphabet)
+        first = lift(new_str(eng, "f", first[0], alphabet=first[1]))
     D = make_directive(req, opt, faw, True, spec)
-    eng.witness_fn = lambda m: {"first_line": first, "content": _conc(eng, m, content), "decl": [req, opt, faw, True, spec]}
+    eng.witness_fn = lambda m: {"first_line": _conc(eng, m, first) if isinstance(first, SStr) else first, "content": _conc(eng, m, content), "decl": [req, opt, faw, True, spec]}
 
     def body():
         try:
@@ -426,6 +429,9 @@ def families(tier, seed):
                         args=dict(n=n, alphabet=RAW, first="x", req=1), nontrivial="partition_nontrivial"))
         F.append(Family("raw-nospec/N%d" % n, make_raw, "contents of %d chars over %r, directive without option_spec" % (n, RAW),
                         args=dict(n=n, alphabet=RAW, first="", spec="none"), nontrivial="partition_nontrivial"))
+    for n in ([4] if q else [4, 6]):
+        F.append(Family("raw-symfirst/N%d" % n, make_raw, "contents of %d chars over %r, first line = any 2 chars over ' \\tx' (blank, padded and text first lines), no-argument directive" % (n, RAW),
+                        args=dict(n=n, alphabet=RAW, first=(2, " \tx")), nontrivial="partition_nontrivial"))
     F.append(Family("raw-breaks/N4", make_raw, "contents of 4 chars over '-:a\\n\\r\\x0b\\x0c\\x1c\\x85\\u2028' (all str.splitlines separators: only '\\n' may break a line)",
                     args=dict(n=4, alphabet="-:a\n\r\x0b\x0c\x1c\x85 ", first=""), nontrivial="partition_nontrivial", required=True))
     for nl in ([3] if q else [3, 4, 5]):
